@@ -32,6 +32,7 @@ def run(ctx):
     runner.prove(ctx, MODULE, THEOREMS, FILES)
     try:
         directed_positions(ctx)
+        deep_forwarders(ctx)
     except Exception as e:  # noqa: BLE001  (the fixed family could not even be declared on the tree under test)
         ctx.count("directed_positions_failed:" + type(e).__name__)
     batch = valcases.schema_batch(ctx, ctx.n(70, 500), customs=False)
@@ -196,6 +197,59 @@ def directed_positions(ctx):
                 elif r1[0] == "ok" and repr(r2[1]) != repr(r1[1]):
                     ctx.violation("substitution result differs (after erasing wrappers) from the plain result",
                                   value=repr(v), plain_result=repr(r1[1]), wrapped_result=repr(r2[1]), **info)
+
+
+def deep_forwarders(ctx):
+    """the same forwarding class nested 1..20 times along one branch, through every position: printed form, validation, generation
+    (under fixed draws) and substitution equal the plain tree's"""
+    from .. import custom
+
+    def build(n, wrap):
+        s, w = schema.int.min(0), 3
+        for i in range(n):
+            k = i % 5
+            if k == 0:
+                s, w = schema.dict({"d": wrap(s), optional("o"): schema.int}), {"d": w}
+            elif k == 1:
+                s, w = schema.list([schema.none, wrap(s)]), [None, w]
+            elif k == 2:
+                s, w = schema.list(wrap(s)).len(1, 2), [w]
+            elif k == 3:
+                s, w = schema.any(schema.str, wrap(s)), w
+            else:
+                s, w = wrap(schema.dict({"x": s})), {"x": w}
+        return wrap(s), w
+    for n in (1, 2, 3, 5, 8, 9, 12, 20):
+        try:
+            (s, w), (ws, _) = build(n, lambda x: x), build(n, custom.wrap)
+        except Exception:  # noqa: BLE001
+            ctx.count("deep_forwarders_not_declarable")
+            continue
+        info = dict(plain=repr(s)[:300], wrapped_nodes=n + 1, depth=n)
+        ctx.count("deep_forwarder_cases")
+        try:
+            if s.__accept__(R, indent=0) != ws.__accept__(R, indent=0):
+                ctx.violation("printed form differs when sub-schemas are wrapped in a forwarding custom type", **info)
+            for v in (w, gen_value.perturb(w, ctx.rnd)[:6]):
+                for x in ([v] if v is w else v):
+                    e1 = sorted(repr((type(e).__name__, repr(e.path))) for e in validate(s, x).get_errors())
+                    e2 = sorted(repr((type(e).__name__, repr(e.path))) for e in validate(ws, x).get_errors())
+                    if e1 != e2:
+                        ctx.violation("validation errors/paths differ when sub-schemas are wrapped", value=repr(x)[:200], plain_errors=e1[:3],
+                                      wrapped_errors=e2[:3], **info)
+            for pol in ("lo", "hi", "rnd"):
+                st = ctx.rnd.getstate()
+                (k1, v1), _ = SR.generate(s, SR.make_policy(pol, ctx.rnd))
+                ctx.rnd.setstate(st)
+                (k2, v2), _ = SR.generate(ws, SR.make_policy(pol, ctx.rnd))
+                if k1 != k2 or (k1 == "ok" and not same_value(v1, v2)):
+                    ctx.violation("generation differs when sub-schemas are wrapped", policy=pol, plain=repr(v1)[:200], wrapped=repr(v2)[:200], **info)
+            r1, r2 = try_subst(s, w), try_subst(ws, w)
+            if r1[0] != r2[0] or (r1[0] == "ok" and repr(r1[1]) != repr(r2[1])):
+                ctx.violation("substitution outcome differs when sub-schemas are wrapped", value=repr(w)[:200], plain_outcome=repr(r1)[:200],
+                              wrapped_outcome=repr(r2)[:200], **info)
+        except Exception as e:  # noqa: BLE001
+            ctx.violation("an operation raised on a deep chain of forwarding custom types: " + type(e).__name__, exception=repr(e)[:300], **info)
 
 
 def strip_custom(keys):
